@@ -31,6 +31,29 @@ RelConforms(e) ==
     /\ RelOk(e.fam, e.a, e.b, e.r)
     /\ e.a_after = e.a /\ e.b_after = e.b
 
+(* ---- one setter call on a buffer scheme "://" authority path "?" query "#" fragment whose     *)
+(* ---- components have the lengths e.lens (each one repeated letter): component e.k takes the  *)
+(* ---- length e.new, every other one keeps its length and its letters, the text is their sum   *)
+(* ---- plus the five delimiters and re-parses (C05, C04)                                       *)
+BigEditConforms(e) ==
+    LET want == [i \in 1..5 |-> IF i = e.k + 1 THEN e.new ELSE e.lens[i]]
+    IN  /\ e.panic = FALSE
+        /\ e.after = want
+        /\ e.total = want[1] + 3 + want[2] + want[3] + 1 + want[4] + 1 + want[5]
+        /\ e.valid /\ e.fills
+
+(* ---- "s:" (or nothing) followed by n slashes (C02): no authority below two slashes, then an  *)
+(* ---- empty authority and n - 2 bytes of path                                                  *)
+SlashesConforms(e) ==
+    LET sl == IF e.scheme THEN 1 ELSE -1
+        al == IF e.n >= 2 THEN 0 ELSE -1
+        pl == IF e.n >= 2 THEN e.n - 2 ELSE e.n
+    IN  /\ e.panic = FALSE
+        /\ e.scheme_len = sl /\ e.parts_scheme_len = sl
+        /\ e.authority_len = al /\ e.parts_authority_len = al
+        /\ e.path_len = pl /\ e.parts_path_len = pl
+        /\ e.segments = (IF pl <= 1 THEN 0 ELSE pl)      \* Segs("/") = <<>>, Segs("//") = <<"", "">> (MC_Unit)
+
 (* ---- resolution with one segment of n times "a" (C06):                                      *)
 (* ----   own:     t:/x/../<big>/./z  against s://h/p/q   gives  t:/<big>/z                    *)
 (* ----   merge:   ../<big>/./z       against s://h/p/q   gives  s://h/<big>/z                 *)
@@ -144,6 +167,8 @@ Conforms(e) ==
       [] e.ev = "big_path" -> BigPathConforms(e)
       [] e.ev = "big_ref"  -> BigRefConforms(e)
       [] e.ev = "big_pct"  -> BigPctConforms(e)
+      [] e.ev = "big_edit" -> BigEditConforms(e)
+      [] e.ev = "slashes"  -> SlashesConforms(e)
       [] e.ev = "big_resolve" -> BigResolveConforms(e)
       [] e.ev = "sweep_big" -> SweepBigConforms(e)
       [] e.ev = "parse"  -> ParseConforms(e)
